@@ -53,7 +53,7 @@ def cases(tier):
     pool = [(1.0, 10.0), (2.0, 20.0), (3.0, 35.0), (4.5, -2.5)]
     for n in (1, 2, 3, 4):
         for rows in itertools.permutations(range(4), n):
-            for variant in range(8):
+            for variant in range(10):
                 out.append(dict(kind='reader', rows=list(rows), variant=variant))
     lows = [-2.0, 0.0, 0.1, 1.0, 7.3]
     spans = [0.5, 1.0, 2.5, 9.9, 30.0]
@@ -62,6 +62,9 @@ def cases(tier):
             for steps in (1, 2, 3, 10, 17):
                 for fn in ('plotToFile', 'plot', 'plotPotentialObjectToFile', 'plotPotentialObject'):
                     out.append(dict(kind='plot', lo=lo, hi=lo + sp, steps=steps, fn=fn))
+                # callables built on numpy / scipy return numpy scalars or 0-d arrays; bounds may come from a numpy array
+                for ret in ('numpy-scalar', 'array0d', 'numpy-bounds'):
+                    out.append(dict(kind='plot', lo=lo, hi=lo + sp, steps=steps, fn=('plotToFile', 'plot')[steps % 2], ret=ret))
     return out
 
 
@@ -143,7 +146,17 @@ def run_table(case):
 POOL = [(1.0, 10.0), (2.0, 20.0), (3.0, 35.0), (4.5, -2.5)]
 
 
+POOL2 = [(0.5, -0.25), (1.5, 0.125), (2.0, 3.0), (2.75, -0.5)]
+SPELL = {8: ['.5 -.25', '1.5 +.125', '2. 3.', '2.75e0 -5E-1'], 9: ['+.5 -2.5e-1', '15e-1 .125', '+2 3', '275E-2 -.5']}
+
+
+def pool_of(variant):
+    return POOL2 if variant >= 8 else POOL
+
+
 def reader_text(rows, variant):
+    if variant >= 8:
+        return '\n'.join(SPELL[variant][k] for k in rows) + '\n'
     ls = []
     for i, k in enumerate(rows):
         xv, yv = POOL[k]
@@ -178,7 +191,7 @@ def run_reader(case):
     viol = []
     text = reader_text(case['rows'], case['variant'])
     t = TableReader(io.StringIO(text, newline=''))
-    data = sorted(POOL[k] for k in case['rows'])
+    data = sorted(pool_of(case['variant'])[k] for k in case['rows'])
     n = 0
     for xv, yv in data:
         n += 1
@@ -207,7 +220,17 @@ def run_plot(case):
     import atsim.potentials as ap
     viol = []
     lo, hi, steps, fn = case['lo'], case['hi'], case['steps'], case['fn']
-    f = lambda v: 0.25 * v * v - 1.5 * v + math.cos(v)   # noqa
+    import numpy as np
+    base = lambda v: 0.25 * v * v - 1.5 * v + math.cos(v)   # noqa
+    ret = case.get('ret')
+    if ret == 'numpy-scalar':
+        f = lambda v: np.float64(base(v))                    # noqa
+    elif ret == 'array0d':
+        f = lambda v: np.array(base(v))                      # noqa
+    else:
+        f = base
+    if ret == 'numpy-bounds':
+        lo, hi = np.array([lo, hi])
     pot = ap.Potential('A', 'B', f)
     if fn == 'plotToFile':
         fp = io.StringIO()
@@ -237,13 +260,17 @@ def run_plot(case):
         if len(t) != 2:
             V(viol, 'plot-format', 'row %d: %r' % (i, ln))
             return viol, 1
-        xv, yv = float(t[0]), float(t[1])
-        want = lo + i * (hi - lo) / steps
+        try:
+            xv, yv = float(t[0]), float(t[1])
+        except ValueError:
+            V(viol, 'plot-format', '%s row %d is not two numbers: %r' % (fn, i, ln))
+            return viol, 1
+        want = float(lo) + i * (float(hi) - float(lo)) / steps
         if abs(xv - want) > 4 * 2.3e-16 * (abs(want) + abs(lo) + 1e-300):
             V(viol, 'plot-x', '%s row %d: x = %r, expected lowx + i*(highx-lowx)/steps = %r' % (fn, i, xv, want))
             return viol, 1
-        if yv != f(xv):
-            V(viol, 'plot-y', '%s row %d: y = %r, f(x) = %r' % (fn, i, yv, f(xv)))
+        if yv != float(base(xv)):
+            V(viol, 'plot-y', '%s row %d: y = %r, f(x) = %r' % (fn, i, yv, base(xv)))
             return viol, 1
     return viol, steps
 
